@@ -188,6 +188,8 @@ def run_controlled(dsk, keys, num_workers=2, chunksize=1, prefix=(), policy="fir
     G.reset_log()
     cache = TracingCache() if trace_cache else None
     cbs = [recorder()] if callbacks is None else callbacks
+    if callbacks == "global":
+        cbs = None  # let get_async use whatever Callback.active holds (C05)
     _CTL.ctl = ctl
     kw = dict(cache=cache, callbacks=cbs, chunksize=chunksize)
     kw.update(extra_kwargs or {})
